@@ -463,12 +463,17 @@ func updateSectionPath(sectionPath *[]string, currentLevel *int, newLevel int, h
 func enterSection(sectionPath *[]string, levels *[]int, newLevel int, headingText string) {
 	headingText = strings.TrimSpace(headingText)
 
-	for len(*levels) > 0 && len(*sectionPath) > 0 && (*levels)[len(*levels)-1] >= newLevel {
+	keep := len(*sectionPath)
+	for len(*levels) > 0 && keep > 0 && (*levels)[len(*levels)-1] >= newLevel {
 		*levels = (*levels)[:len(*levels)-1]
-		*sectionPath = (*sectionPath)[:len(*sectionPath)-1]
+		keep--
 	}
 
-	*sectionPath = append(*sectionPath, headingText)
+	// Chunks already created hold the previous path: build the new one in
+	// fresh storage instead of truncating and appending in place
+	path := make([]string, 0, keep+1)
+	path = append(path, (*sectionPath)[:keep]...)
+	*sectionPath = append(path, headingText)
 	*levels = append(*levels, newLevel)
 }
 
